@@ -1,5 +1,6 @@
 import Driver.Codec
 import Driver.C10
+import Driver.C09
 import LopdfModel.Model.Edit
 namespace Lopdf.Driver.C11
 open Lopdf Lopdf.Codec Lopdf.Driver.C10
@@ -53,6 +54,14 @@ def parseOp : List String → Option (Op × List String)
     let n ← a.toNat?; let g ← b.toNat?
     let content ← bytesOfHex c; let defl ← bytesOfHex e
     pure (.changePage (n, g) content defl, ts)
+  | "compress" :: n :: ts => do
+    let k ← n.toNat?
+    let (tab, rest) ← Lopdf.Driver.C09.parseExt k ts
+    pure (.compress (Lopdf.Driver.C09.lookupExt tab "d"), rest)
+  | "decompress" :: n :: ts => do
+    let k ← n.toNat?
+    let (tab, rest) ← Lopdf.Driver.C09.parseExt k ts
+    pure (.decompress (Lopdf.Driver.C09.mkExt tab), rest)
   | _ => none
 
 /-- `step <op> <args…> <doc>` -> `ok <out> | <doc>` / `panic <site>` / `err <e>` -/
